@@ -224,6 +224,15 @@ class DataPacketReceiver(Elaboratable):
                 with m.Elif(sink.valid):
                     m.next = "WAIT_FOR_HPSTART"
 
+                # Whatever we decided about this header: if the word we're looking at is the start of the
+                # next header packet, we must not swallow it. Restart our CRCs and receive that packet.
+                with m.If(stream_matches_symbols(sink, SHP, SHP, SHP, EPF)):
+                    m.d.comb += [
+                        crc16.clear.eq(1),
+                        crc32.clear.eq(1),
+                    ]
+                    m.next = "RECEIVE_DW0"
+
             # RECEIVE_PAYLOAD -- receive the core data payload
             with m.State("RECEIVE_PAYLOAD"):
                 m.d.comb += [
